@@ -30,10 +30,73 @@ def main(argv) -> int:
                 errs.append(f"gen {gen}: plain init() against the reference console returned {init['result']!r} / {init['exc']!r}")
     except Exception as exc:  # noqa: BLE001
         errs.append(f"smoke run crashed: {exc!r}")
+    errs += _ordered_set_conformance()
     for e in errs:
         print("SELFTEST-FAIL:", e)
     print(json.dumps({"selftest": "ok" if not errs else "failed", "failures": len(errs)}))
     return 0 if not errs else 2
+
+
+def _ordered_set_conformance() -> list[str]:
+    """The ordered stand-in for `set` (sim/seams.py) against the real thing: random operation sequences, aliasing through
+    in-place operators, and the error on a size change during iteration (two fidelity defects were found here by seeded
+    changes: snapshot iteration, missing in-place operators)."""
+    import random
+
+    from sim.seams import OrderedSet
+
+    errs = []
+    rng = random.Random(7)
+    for trial in range(300):
+        a, b = set(), OrderedSet()
+        alias_a, alias_b = a, b
+        for _ in range(30):
+            op = rng.choice(["add", "discard", "ior", "isub", "iand", "or", "sub", "and", "update", "clear", "copy_eq", "len", "in", "union"])
+            x = rng.randrange(8)
+            other = {rng.randrange(8) for _ in range(rng.randrange(4))}
+            if op == "add":
+                a.add(x); b.add(x)
+            elif op == "discard":
+                a.discard(x); b.discard(x)
+            elif op == "ior":
+                a |= other; b |= other
+            elif op == "isub":
+                a -= other; b -= other
+            elif op == "iand" and rng.random() < 0.3:
+                a &= other; b &= other
+            elif op == "update":
+                a.update(other); b.update(other)
+            elif op == "clear" and rng.random() < 0.2:
+                a.clear(); b.clear()
+            elif op == "or" and set(a | other) != set(b | other):
+                errs.append("OrderedSet: | differs")
+            elif op == "sub" and set(a - other) != set(b - other):
+                errs.append("OrderedSet: - differs")
+            elif op == "and" and set(a & other) != set(b & other):
+                errs.append("OrderedSet: & differs")
+            elif op == "union" and set(a.union(other, {9})) != set(b.union(other, {9})):
+                errs.append("OrderedSet: union differs")
+            elif op == "copy_eq" and not (b.copy() == a and len(b.copy()) == len(a)):
+                errs.append("OrderedSet: copy / == differs")
+            elif op == "in" and (x in a) != (x in b):
+                errs.append("OrderedSet: membership differs")
+            if set(a) != set(b) or len(a) != len(b) or bool(a) != bool(b):
+                errs.append(f"OrderedSet: content differs after {op}")
+                break
+            if alias_a is not a or alias_b is not b:
+                errs.append(f"OrderedSet: {op} re-bound the name instead of mutating in place")
+                break
+        if errs:
+            break
+    for cls in (set, OrderedSet):
+        s0 = cls([1, 2, 3])
+        try:
+            for x in s0:
+                s0.discard(2 if x != 2 else 3)
+            errs.append(f"{cls.__name__}: no RuntimeError on a size change during iteration")
+        except RuntimeError:
+            pass
+    return errs[:3]
 
 
 if __name__ == "__main__":
